@@ -2,6 +2,7 @@ import SwimVerif.Driver
 import SwimVerif.Model.InactivityRt
 import SwimVerif.Model.CoordThreads
 import SwimVerif.Model.InactivityDl
+import SwimVerif.Model.PruneRt
 
 namespace SwimVerif.Machines.C17X
 open SwimVerif
@@ -33,6 +34,15 @@ def c17dl : Machine where
   minit := {}
   mstep := fun m line out => m.step line out
 
-def machines : List (String × Machine) := [("c17rt", c17rt), ("c17th", c17th), ("c17dl", c17dl)]
+/-- the prune glue of the agent runtime's write task (C03: who is still registered, who is answered) -/
+def c17pr : Machine where
+  σ := Option PruneRt.St
+  init := none
+  step := fun s line => PruneRt.apiLine s line
+  μ := PruneRt.Mon
+  minit := {}
+  mstep := fun m line out => m.step line out
+
+def machines : List (String × Machine) := [("c17rt", c17rt), ("c17th", c17th), ("c17dl", c17dl), ("c17pr", c17pr)]
 
 end SwimVerif.Machines.C17X
